@@ -103,3 +103,25 @@ Definition extent (w : world) (f : fid) (g : nat) (x : string) : option (Z * Z) 
 (** everything a renaming must leave alone, read through the links of the collection *)
 Definition column (w : world) (f : fid) (g : nat) (tbl col : string) : option payload :=
   match child w f g tbl with Some t => ds_at w f t col | None => None end.
+
+(** Cooler.matrix(balance=False, as_pixels).fetch(name) for one chromosome against itself: the stored
+    pixels (bin1, bin2, count) whose two bins both lie in the extent of the named chromosome; and
+    Cooler.bins().fetch(name): the coordinates of the bins of that extent *)
+Definition in_ext (lo hi : Z) (b : Z) : bool := (lo <=? b) && (b <? hi).
+Definition fetch_pixels (w : world) (f : fid) (g : nat) (x : string) : option (list (Z * Z * Z)) :=
+  match extent w f g x with
+  | Some (lo, hi) =>
+      let b1 := ints_of (column w f g "pixels"%string "bin1_id"%string) in
+      let b2 := ints_of (column w f g "pixels"%string "bin2_id"%string) in
+      let ct := ints_of (column w f g "pixels"%string "count"%string) in
+      Some (filter (fun p => in_ext lo hi (fst (fst p)) && in_ext lo hi (snd (fst p))) (combine (combine b1 b2) ct))
+  | None => None
+  end.
+Definition fetch_bin_coords (w : world) (f : fid) (g : nat) (x : string) : option (list (Z * Z)) :=
+  match extent w f g x with
+  | Some (lo, hi) =>
+      let st := ints_of (column w f g "bins"%string "start"%string) in
+      let en := ints_of (column w f g "bins"%string "end"%string) in
+      Some (slice (combine st en) lo hi)
+  | None => None
+  end.
